@@ -649,8 +649,50 @@ func ruleC11Wake(c *Ctx) {
 		key := fnName(fn) + ":release-wakes"
 		switch {
 		case viaWake && !plain:
-			// elements recorded on every path through an insert
-			isElems := func(in ssa.Instruction) bool { _, ok := isStoreTo(in, fElems); return ok }
+			// elements recorded on every path through an insert: in the key object handed to the waking release, or in a
+			// local that the deferred waking closure reads when it builds that object (`pushed++` … `elements: pushed`)
+			countCells := map[ssa.Value]bool{}
+			for _, in := range instrsOf(fn) {
+				d, ok := in.(*ssa.Defer)
+				if !ok {
+					continue
+				}
+				mc, ok := d.Call.Value.(*ssa.MakeClosure)
+				if !ok {
+					continue
+				}
+				g, _ := mc.Fn.(*ssa.Function)
+				if g == nil || !releasesOnlyThroughWake(g, 0) {
+					continue
+				}
+				for _, in2 := range instrsOf(g) {
+					st, ok := isStoreTo(in2, fElems)
+					if !ok {
+						continue
+					}
+					if u, ok := stripValue(st.Val).(*ssa.UnOp); ok && u.Op == token.MUL {
+						if fv, ok := u.X.(*ssa.FreeVar); ok {
+							for i, v2 := range g.FreeVars {
+								if v2 == fv && i < len(mc.Bindings) {
+									countCells[mc.Bindings[i]] = true
+								}
+							}
+						}
+					}
+				}
+			}
+			isElems := func(in ssa.Instruction) bool {
+				if _, ok := isStoreTo(in, fElems); ok {
+					return true
+				}
+				if st, ok := in.(*ssa.Store); ok && countCells[st.Addr] {
+					if k, isConst := constInt(st.Val); isConst && k == 0 {
+						return false // the initialisation
+					}
+					return true
+				}
+				return false
+			}
 			cm := &CoverModel{m: c.M, mm: mm, isEvent: isElems, always: map[*ssa.Function]bool{}}
 			missing := false
 			for _, ins := range inserts {
